@@ -4658,10 +4658,13 @@ class ParseCtx:
             return val
         elif expr.data == "identifier_const":
             try:
-                expr = self._lookup_named_entity(MacroArgumentKind.EXPR, expr.children[0])
-                return self._parse_integer_expr(expr, into_storage=into_storage)
+                bound_expr = self._lookup_named_entity(MacroArgumentKind.EXPR, expr.children[0])
             except UndefinedReferenceError:
-                pass
+                bound_expr = None
+
+            # (an argument that is just an identifier with the parameter's own name refers to the enumeration constant, not to itself)
+            if bound_expr is not None and bound_expr is not expr:
+                return self._parse_integer_expr(bound_expr, into_storage=into_storage)
 
             if into_storage is None:
                 raise IllegalParseTree("Undefined enumeration value, no into_storage", expr)
